@@ -141,6 +141,36 @@ static int ini_handler(void *user, const char *section, const char *name, const 
   return strcmp(name ? name : "", "bad") != 0;
 }
 
+// modelled ini ops: events as sec/name/val (hex), the handler refuses name "bad" and values starting with '!'
+#define INI_EV_BUDGET 64
+static int ini_nev;
+static FILE *ini_ms;
+static int ini_handler2(void *user, const char *section, const char *name, const char *value) {
+  (void) user;
+  if (ini_nev++ < INI_EV_BUDGET) {
+    const char *parts[3] = { section, name, value };
+    fputc(' ', ini_ms);
+    for (int i = 0; i < 3; ++i) {
+      const char *s = parts[i] ? parts[i] : "";
+      hx_print(ini_ms, s, strlen(s));
+      if (i < 2) fputc('/', ini_ms);
+    }
+  }
+  return !(!strcmp(name ? name : "", "bad") || (value && value[0] == '!'));
+}
+
+// reader for `inif`: delivers the words of the op line one by one, each an arbitrary byte string (NULs allowed)
+struct fills { char **w; int n; int i; int bad; };
+static char* fills_reader(char *str, int num, void *stream) {
+  struct fills *f = stream;
+  if (f->i >= f->n) return 0;
+  size_t l; uint8_t *t = hx_parse(f->w[f->i++], &l);
+  if ((int) l + 1 > num) { f->bad = 1; free(t); return 0; }
+  memcpy(str, t, l); str[l] = 0;
+  free(t);
+  return str;
+}
+
 static const char* repl_mapper(const char *key, void *op) {
   (void) op;
   size_t l = strlen(key);
@@ -439,6 +469,47 @@ int main(int argc, char **argv) {
       printf("ini %d%s\n", r, iwxstr_ptr(ini_out));
       iwxstr_destroy(ini_out); ini_out = 0;
       free(p);
+    } else if ((!strcmp(w[0], "inis") && n == 2) || (!strcmp(w[0], "inifile") && n == 2) || (!strcmp(w[0], "inif") && n >= 1)) {
+      // modelled (Model/Ini.lean): inis <text> = iwini_parse_string; inif <fill>... = iwini_parse_stream with a reader
+      // that delivers the fills; inifile <bytes> = iwini_parse_file on a stream with that content (NULs allowed)
+      char *mem = 0; size_t msz = 0;
+      ini_ms = open_memstream(&mem, &msz);
+      ini_nev = 0;
+      int r; int bad = 0;
+      if (w[0][3] == 's') {
+        size_t l; char *p = xbuf(w[1], &l, 1);
+        r = iwini_parse_string(p, ini_handler2, 0);
+        free(p);
+      } else if (w[0][4] == 'i') {
+        size_t l; char *p = xbuf(w[1], &l, 0);
+        FILE *f = l ? fmemopen(p, l, "r") : fopen("/dev/null", "r");
+        r = f ? iwini_parse_file(f, ini_handler2, 0) : -1;
+        if (f) fclose(f);
+        free(p);
+      } else {
+        struct fills f = { w + 1, n - 1, 0, 0 };
+        r = iwini_parse_stream(fills_reader, &f, ini_handler2, 0);
+        bad = f.bad;
+      }
+      fclose(ini_ms); ini_ms = 0;
+      if (bad) printf("%s bad-fill\n", w[0]); else printf("%s %d %d%s\n", w[0], r, ini_nev, mem);
+      free(mem);
+    } else if (!strcmp(w[0], "replm") && n >= 3) {
+      // modelled (Model/Repl.lean): replm <datalen> <data> <key>... on exact-size NUL-terminated blocks
+      size_t l; char *p = xbuf(w[2], &l, 1); int dl = atoi(w[1]);
+      const char *keys[64]; char *kb[64]; int nk = 0;
+      for (int i = 3; i < n && nk < 63; ++i) { size_t kl; kb[nk] = xbuf(w[i], &kl, 1); keys[nk] = kb[nk]; nk++; }
+      keys[nk] = 0;
+      if (dl < 0 || (size_t) dl > l) printf("replm bad-len\n");
+      else {
+        struct iwxstr *res = 0;
+        iwrc rc = iwu_replace(&res, p, dl, keys, (l % 2) ? nk : -1, repl_mapper, 0);
+        printf("replm %s ", rcname(rc));
+        if (res) { print_capped(iwxstr_ptr(res), iwxstr_size(res)); iwxstr_destroy(res); } else printf("null");
+        printf("\n");
+      }
+      for (int i = 0; i < nk; ++i) free(kb[i]);
+      free(p);
     } else if (!strcmp(w[0], "repl") && n >= 3) {
       size_t l; char *p = xbuf(w[1], &l, 1);
       const char *keys[64]; char *kb[64]; int nk = 0;
@@ -472,6 +543,14 @@ int main(int argc, char **argv) {
       printf("xprintf %s %zu ", rcname(rc), iwxstr_size(x)); print_capped(iwxstr_ptr(x), iwxstr_size(x));
       printf(" "); print_capped(pp, pp ? strlen(pp) : 0); printf("\n");
       iwpool_destroy(pool); iwxstr_destroy(x); free(p);
+    } else if (!strcmp(w[0], "ftoa2") && n == 2) {
+      // iwftoa into an exact IWNUMBUF_SIZE heap block (exploration: the length of its output depends on the value)
+      uint64_t bits = strtoull(w[1], 0, 16); double d; memcpy(&d, &bits, 8);
+      char *buf = malloc(IWNUMBUF_SIZE); memset(buf, 0xAA, IWNUMBUF_SIZE);
+      iwftoa((long double) d, buf);
+      size_t sl = strnlen(buf, IWNUMBUF_SIZE);
+      printf("ftoa2 %zu ", sl); hx_print(stdout, buf, sl); printf("\n");
+      free(buf);
     } else if (!strcmp(w[0], "strtod") && n == 2) {
       size_t l; char *p = xbuf(w[1], &l, 1);
       char *end = 0;
